@@ -317,6 +317,34 @@ func (c *Ctx) c05Features() {
 			f.SetCellHyperLink(sh, "A3", "Sheet1!A1", "Location")
 			return f.SetCellHyperLink(sh, "A2", "", "None")
 		}},
+		{"data validations whose escaped formulas hold references, then structural edits on this and another sheet", func(f *excelize.File) error {
+			fill(f)
+			f.NewSheet("Other")
+			for i, item := range []string{"=IF($A$5<LEN($B$5&$C$5),$B$6:$B$8,$C$6:$C$8)", "A3<B3", "x&B4", "=Other!$A$2&\"<\"", "IF(B2>3,\"a<b\",C2&\"&\")"} {
+				dv := excelize.NewDataValidation(true)
+				dv.SetSqref(fmt.Sprintf("F%d:G%d", 2+i, 2+i))
+				if err := dv.SetDropList([]string{item}); err != nil {
+					return err
+				}
+				if err := f.AddDataValidation(sh, dv); err != nil {
+					return err
+				}
+			}
+			dv := excelize.NewDataValidation(true)
+			dv.SetSqref("H2:H4")
+			dv.SetRange("B2", "C6", excelize.DataValidationTypeWhole, excelize.DataValidationOperatorBetween)
+			f.AddDataValidation(sh, dv)
+			if err := f.InsertRows(sh, 3, 2); err != nil {
+				return err
+			}
+			if err := f.InsertCols(sh, "B", 1); err != nil {
+				return err
+			}
+			if err := f.RemoveRow("Other", 1); err != nil {
+				return err
+			}
+			return f.RemoveCol(sh, "A")
+		}},
 		{"sheet with everything deleted, copied and renamed", func(f *excelize.File) error {
 			fill(f)
 			f.AddComment(sh, excelize.Comment{Cell: "A1", Author: "x", Paragraph: []excelize.RichTextRun{{Text: "c"}}})
